@@ -202,6 +202,10 @@ func (b byteBlock) Bytes() []byte     { return b.bytes }
 type Diff struct {
 	Class string // short class for signatures
 	What  string
+	// for read-value mismatches: what was read
+	ReadReg  expr.Key
+	ReadAddr uint64
+	ReadW    int
 }
 
 // instruction finds the instruction at the current address a.
@@ -285,16 +289,16 @@ func (m *Machine) Step() (d *Diff, done bool) {
 	var err error
 	p, stack := eng.Catch(func() { st, err = m.Emu.Step() })
 	if p != nil {
-		return &Diff{"panic " + eng.PanicSite(stack), fmt.Sprintf("Step at %#x panics: %v", pc, p)}, true
+		return &Diff{Class: "panic " + eng.PanicSite(stack), What: fmt.Sprintf("Step at %#x panics: %v", pc, p)}, true
 	}
 	if !atIns {
 		if err == nil {
-			return &Diff{"no-error-off-instruction", fmt.Sprintf("Step at %#x (not an instruction start) did not fail", pc)}, true
+			return &Diff{Class: "no-error-off-instruction", What: fmt.Sprintf("Step at %#x (not an instruction start) did not fail", pc)}, true
 		}
 		return nil, true
 	}
 	if err != nil {
-		return &Diff{"error-on-instruction", fmt.Sprintf("Step at instruction %#x fails: %v", pc, err)}, true
+		return &Diff{Class: "error-on-instruction", What: fmt.Sprintf("Step at instruction %#x fails: %v", pc, err)}, true
 	}
 	m.Steps++
 	word := m.words[uint64(ins.OrigAddr())]
@@ -315,19 +319,19 @@ func (m *Machine) Step() (d *Diff, done bool) {
 	for k := range eregs {
 		c, ok := st.RegLoads[k]
 		if !ok {
-			return &Diff{"report regload-missing", fmt.Sprintf("%s at %#x reads %s but the step report lacks it", name, pc, k)}, false
+			return &Diff{Class: "report regload-missing", What: fmt.Sprintf("%s at %#x reads %s but the step report lacks it", name, pc, k)}, false
 		}
 		if ir.ConstVal(c).Cmp(ir.Adjust(env.Reg(k), c.Width())) != 0 {
 			cls := "report regload-value"
 			if w, nar := m.Narrow[k]; nar && ir.ConstVal(c).Cmp(ir.Adjust(ir.Adjust(env.Reg(k), expr.Width(w)), c.Width())) == 0 {
 				cls = "narrow-first-read report"
 			}
-			return &Diff{cls, fmt.Sprintf("%s at %#x: report says %s was read as %x, register holds %x", name, pc, k, ir.ConstVal(c), env.Reg(k))}, false
+			return &Diff{Class: cls, What: fmt.Sprintf("%s at %#x: report says %s was read as %x, register holds %x", name, pc, k, ir.ConstVal(c), env.Reg(k)), ReadReg: k}, false
 		}
 	}
 	for k := range st.RegLoads {
 		if !eregs[k] {
-			return &Diff{"report regload-extra", fmt.Sprintf("%s at %#x: report lists read of %s which the effects do not read", name, pc, k)}, false
+			return &Diff{Class: "report regload-extra", What: fmt.Sprintf("%s at %#x: report lists read of %s which the effects do not read", name, pc, k)}, false
 		}
 	}
 	gotM := map[[2]uint64]bool{}
@@ -335,15 +339,15 @@ func (m *Machine) Step() (d *Diff, done bool) {
 		key := [2]uint64{uint64(a.Addr), uint64(a.Width())}
 		gotM[key] = true
 		if a.Key != riscv.MemoryKey || !emems[key] {
-			return &Diff{"report memload-extra", fmt.Sprintf("%s at %#x: report lists memory read [%#x,+%d) which the effects do not perform", name, pc, a.Addr, a.Width())}, false
+			return &Diff{Class: "report memload-extra", What: fmt.Sprintf("%s at %#x: report lists memory read [%#x,+%d) which the effects do not perform", name, pc, a.Addr, a.Width())}, false
 		}
 		if ir.ConstVal(a.Value).Cmp(memVal(uint64(a.Addr), int(a.Width()))) != 0 {
-			return &Diff{"report memload-value", fmt.Sprintf("%s at %#x: report says [%#x,+%d) read as %x, memory holds %x", name, pc, a.Addr, a.Width(), ir.ConstVal(a.Value), memVal(uint64(a.Addr), int(a.Width())))}, false
+			return &Diff{Class: "report memload-value", What: fmt.Sprintf("%s at %#x: report says [%#x,+%d) read as %x, memory holds %x", name, pc, a.Addr, a.Width(), ir.ConstVal(a.Value), memVal(uint64(a.Addr), int(a.Width()))), ReadAddr: uint64(a.Addr), ReadW: int(a.Width())}, false
 		}
 	}
 	for k := range emems {
 		if !gotM[k] {
-			return &Diff{"report memload-missing", fmt.Sprintf("%s at %#x reads memory [%#x,+%d) but the step report lacks it", name, pc, k[0], k[1])}, false
+			return &Diff{Class: "report memload-missing", What: fmt.Sprintf("%s at %#x reads memory [%#x,+%d) but the step report lacks it", name, pc, k[0], k[1])}, false
 		}
 	}
 	// reference step
@@ -370,7 +374,7 @@ func (m *Machine) Step() (d *Diff, done bool) {
 	for k := range wantRegs {
 		c, ok := st.RegStores[k]
 		if !ok {
-			return &Diff{"report regstore-missing", fmt.Sprintf("%s at %#x writes %s but the report lacks it", name, pc, k)}, false
+			return &Diff{Class: "report regstore-missing", What: fmt.Sprintf("%s at %#x writes %s but the report lacks it", name, pc, k)}, false
 		}
 		var exp uint64
 		switch {
@@ -388,12 +392,12 @@ func (m *Machine) Step() (d *Diff, done bool) {
 			if m.narrowTaint(eregs, preX) {
 				cls = "narrow-first-read report"
 			}
-			return &Diff{cls, fmt.Sprintf("%s at %#x: report says %s := %x, reference %x", name, pc, k, ir.ConstVal(c), exp)}, false
+			return &Diff{Class: cls, What: fmt.Sprintf("%s at %#x: report says %s := %x, reference %x", name, pc, k, ir.ConstVal(c), exp)}, false
 		}
 	}
 	for k := range st.RegStores {
 		if !wantRegs[k] {
-			return &Diff{"report regstore-extra", fmt.Sprintf("%s at %#x: report lists write of %s", name, pc, k)}, false
+			return &Diff{Class: "report regstore-extra", What: fmt.Sprintf("%s at %#x: report lists write of %s", name, pc, k)}, false
 		}
 	}
 	gotS := map[[2]uint64]bool{}
@@ -401,7 +405,7 @@ func (m *Machine) Step() (d *Diff, done bool) {
 		key := [2]uint64{uint64(a.Addr), uint64(a.Width())}
 		gotS[key] = true
 		if !wantMem[key] {
-			return &Diff{"report memstore-extra", fmt.Sprintf("%s at %#x: report lists memory write [%#x,+%d)", name, pc, a.Addr, a.Width())}, false
+			return &Diff{Class: "report memstore-extra", What: fmt.Sprintf("%s at %#x: report lists memory write [%#x,+%d)", name, pc, a.Addr, a.Width())}, false
 		}
 		exp := new(big.Int)
 		for i := int(a.Width()) - 1; i >= 0; i-- {
@@ -413,12 +417,12 @@ func (m *Machine) Step() (d *Diff, done bool) {
 			if m.narrowTaint(eregs, preX) {
 				cls = "narrow-first-read report"
 			}
-			return &Diff{cls, fmt.Sprintf("%s at %#x: report says [%#x,+%d) := %x, reference %x", name, pc, a.Addr, a.Width(), ir.ConstVal(a.Value), exp)}, false
+			return &Diff{Class: cls, What: fmt.Sprintf("%s at %#x: report says [%#x,+%d) := %x, reference %x", name, pc, a.Addr, a.Width(), ir.ConstVal(a.Value), exp)}, false
 		}
 	}
 	for k := range wantMem {
 		if !gotS[k] {
-			return &Diff{"report memstore-missing", fmt.Sprintf("%s at %#x writes [%#x,+%d) but the report lacks it", name, pc, k[0], k[1])}, false
+			return &Diff{Class: "report memstore-missing", What: fmt.Sprintf("%s at %#x writes [%#x,+%d) but the report lacks it", name, pc, k[0], k[1])}, false
 		}
 	}
 	// bookkeeping of knowledge
@@ -459,10 +463,10 @@ func (m *Machine) compareState(name string, pc uint64) *Diff {
 	var ip uint64
 	p, stack := eng.Catch(func() { ip = uint64(m.Emu.MustIP()) })
 	if p != nil {
-		return &Diff{"panic " + eng.PanicSite(stack), fmt.Sprintf("MustIP panics after %s at %#x: %v", name, pc, p)}
+		return &Diff{Class: "panic " + eng.PanicSite(stack), What: fmt.Sprintf("MustIP panics after %s at %#x: %v", name, pc, p)}
 	}
 	if ip != m.Ref.PC {
-		return &Diff{"pc", fmt.Sprintf("after %s at %#x the emulator is at %#x, reference at %#x", name, pc, ip, m.Ref.PC)}
+		return &Diff{Class: "pc", What: fmt.Sprintf("after %s at %#x the emulator is at %#x, reference at %#x", name, pc, ip, m.Ref.PC)}
 	}
 	var keys []string
 	for k := range m.State.Regs.Values() {
@@ -477,7 +481,7 @@ func (m *Machine) compareState(name string, pc uint64) *Diff {
 		e, _ := m.State.Regs.Load(k, 8)
 		c, ok := e.(expr.Const)
 		if !ok {
-			return &Diff{"register-not-constant", fmt.Sprintf("register %s holds non-constant %s", k, ir.Show(e))}
+			return &Diff{Class: "register-not-constant", What: fmt.Sprintf("register %s holds non-constant %s", k, ir.Show(e))}
 		}
 		got, _ := constU64(c)
 		var exp uint64
@@ -491,7 +495,7 @@ func (m *Machine) compareState(name string, pc uint64) *Diff {
 		} else {
 			n, _ := strconv.Atoi(s[1:])
 			if n < 1 || n > 31 {
-				return &Diff{"bad-register-key", "emulator knows register " + s}
+				return &Diff{Class: "bad-register-key", What: "emulator knows register " + s}
 			}
 			exp = m.Ref.X[n]
 		}
@@ -505,7 +509,7 @@ func (m *Machine) compareState(name string, pc uint64) *Diff {
 			if strings.HasPrefix(cls, "narrow") {
 				m.tainted = true
 			}
-			return &Diff{cls, fmt.Sprintf("after %s at %#x: %s = %#x, reference %#x", name, pc, k, got, exp)}
+			return &Diff{Class: cls, What: fmt.Sprintf("after %s at %#x: %s = %#x, reference %#x", name, pc, k, got, exp)}
 		}
 	}
 	// memory: every written byte
@@ -513,18 +517,18 @@ func (m *Machine) compareState(name string, pc uint64) *Diff {
 	for a, exp := range m.Ref.Stores {
 		e, ok := mem.Load(model.Addr(a), 1)
 		if !ok {
-			return &Diff{"memory-missing", fmt.Sprintf("after %s at %#x: byte %#x written by the program is absent", name, pc, a)}
+			return &Diff{Class: "memory-missing", What: fmt.Sprintf("after %s at %#x: byte %#x written by the program is absent", name, pc, a)}
 		}
 		c, isC := ir.FoldConst(e)
 		if !isC {
-			return &Diff{"memory-not-constant", fmt.Sprintf("byte %#x holds %s", a, ir.Show(e))}
+			return &Diff{Class: "memory-not-constant", What: fmt.Sprintf("byte %#x holds %s", a, ir.Show(e))}
 		}
 		if byte(c) != exp {
 			cls := "memory"
 			if m.tainted {
 				cls = "narrow-first-read (derived)"
 			}
-			return &Diff{cls, fmt.Sprintf("after %s at %#x: memory[%#x] = %#02x, reference %#02x", name, pc, a, byte(c), exp)}
+			return &Diff{Class: cls, What: fmt.Sprintf("after %s at %#x: memory[%#x] = %#02x, reference %#02x", name, pc, a, byte(c), exp)}
 		}
 	}
 	// every byte the sparse layer holds must equal the reference's view
@@ -542,7 +546,7 @@ func (m *Machine) compareState(name string, pc uint64) *Diff {
 				if m.tainted {
 					cls = "narrow-first-read (derived)"
 				}
-				return &Diff{cls, fmt.Sprintf("after %s at %#x: memory[%#x] = %s, reference %#02x", name, pc, a, ir.Show(e), exp)}
+				return &Diff{Class: cls, What: fmt.Sprintf("after %s at %#x: memory[%#x] = %s, reference %#02x", name, pc, a, ir.Show(e), exp)}
 			}
 		}
 	}
